@@ -1,12 +1,395 @@
 /-
   C07 — comparisons form a consistent total order with number < text < logical.
+
+  All theorems are about `HotXL.Ops.evalLogic` (model of `evaluate_logic` /
+  `ExcelComparator` of hotxlfp/formulas/operators.py) and hold for ALL rationals, ALL
+  strings and ALL date-times (no bound).  The order of the statement is defined
+  independently of the comparator in `HotXL.Lemmas.Compare` (`Key`, `Key.lt`, `ordLt`,
+  `ordEq`, `zeroLike`).
 -/
 import HotXL.Model.Operators
+import HotXL.Lemmas.Compare
 
 namespace HotXL.Props.C07
-open HotXL HotXL.Ops
+open HotXL HotXL.Ops HotXL.Compare
 
 /-- two blanks are equal -/
 theorem blank_eq_blank : cmpEq .none .none = true := by decide
+
+/-! ### the text order is a strict total order (lexicographic by code point) -/
+
+/-- no text is less than itself -/
+theorem text_irreflexive (s : List Char) : strLt s s = false := strLt_irrefl s
+
+/-- the text order is transitive -/
+theorem text_transitive (s t u : List Char) (h1 : strLt s t = true) (h2 : strLt t u = true) :
+    strLt s u = true := strLt_trans h1 h2
+
+example : strLt "a".toList "ab".toList = true ∧ strLt "ab".toList "b".toList = true := by decide
+
+/-- any two texts are comparable: one is less than the other or they are the same text -/
+theorem text_trichotomous (s t : List Char) : strLt s t = true ∨ s = t ∨ strLt t s = true :=
+  strLt_trichotomy s t
+
+/-- the text order of the comparator is the lexicographic order of core Lean on lists of
+    characters (characters ordered by code point) -/
+theorem text_is_lexicographic (s t : List Char) : strLt s t = true ↔ s < t := strLt_iff_lt s t
+
+/-! ### error operands -/
+
+/-- an error on the left is returned, whatever the right operand is -/
+theorem error_operand_left (op : CmpOp) (e : Err) (r : Value) :
+    evalLogic op (.err e) r = .ok (.err e) := by
+  simp [evalLogic, isErr]
+
+/-- an error on the right is returned when the left operand is not an error -/
+theorem error_operand_right (op : CmpOp) (l : Value) (e : Err) (h : isErr l = none) :
+    evalLogic op l (.err e) = .ok (.err e) := by
+  simp only [evalLogic, h]; simp [isErr]
+
+example : isErr (.num (.int 3)) = none := rfl
+
+/-- with two error operands the left one wins -/
+theorem error_operand_left_first (op : CmpOp) (e f : Err) :
+    evalLogic op (.err e) (.err f) = .ok (.err e) := error_operand_left op e _
+
+/-! ### never raises, always a logical -/
+
+/-- on scalar operands (number, date, text, logical, blank) each of the six comparison
+    operators returns a logical: it never raises and never returns an error value -/
+theorem never_raises {a b : Value} (ha : Scalar a) (hb : Scalar b) (op : CmpOp) :
+    ∃ r : Bool, evalLogic op a b = .ok (.bool r) := by
+  obtain ⟨l, g, _, _, h1, h2, h3, h4, h5, h6⟩ := evalLogic_six ha hb
+  cases op
+  · exact ⟨_, h2⟩
+  · exact ⟨_, h1⟩
+  · exact ⟨_, h5⟩
+  · exact ⟨_, h4⟩
+  · exact ⟨_, h3⟩
+  · exact ⟨_, h6⟩
+
+example : Scalar (.date 86400000000) ∧ Scalar .blank ∧ Scalar (.str "x".toList) := ⟨trivial, trivial, trivial⟩
+
+/-- in particular the outcome is never a raised exception -/
+theorem never_error {a b : Value} (ha : Scalar a) (hb : Scalar b) (op : CmpOp) (e : Err) :
+    evalLogic op a b ≠ .error e := by
+  obtain ⟨r, hr⟩ := never_raises ha hb op
+  rw [hr]; intro h; cases h
+
+/-! ### the comparator computes the described order (non-blank operands) -/
+
+/-- `a < b` returns a logical, TRUE exactly when `a` is before `b` in the order
+    number/date (numerically) < text (lexicographically) < logical (FALSE < TRUE) -/
+theorem lt_result {a b : Value} (ha : Scalar a) (hb : Scalar b) (na : NonBlank a) (nb : NonBlank b) :
+    ∃ l : Bool, evalLogic .lt a b = .ok (.bool l) ∧ (l = true ↔ ordLt a b) := by
+  obtain ⟨x, hx⟩ := key_isSome ha na
+  obtain ⟨y, hy⟩ := key_isSome hb nb
+  obtain ⟨l, hl, hiff⟩ := cmpLt_key (key_eq_cvKey a ▸ hx) (key_eq_cvKey b ▸ hy)
+  refine ⟨l, evalLogic_lt ha hb hl, ?_⟩
+  simp only [ordLt, hx, hy]; exact hiff
+
+/-- `a > b` returns a logical, TRUE exactly when `b` is before `a` in the order -/
+theorem gt_result {a b : Value} (ha : Scalar a) (hb : Scalar b) (na : NonBlank a) (nb : NonBlank b) :
+    ∃ g : Bool, evalLogic .gt a b = .ok (.bool g) ∧ (g = true ↔ ordLt b a) := by
+  obtain ⟨x, hx⟩ := key_isSome ha na
+  obtain ⟨y, hy⟩ := key_isSome hb nb
+  obtain ⟨g, hg, hiff⟩ := cmpGt_key (key_eq_cvKey a ▸ hx) (key_eq_cvKey b ▸ hy)
+  refine ⟨g, evalLogic_gt ha hb hg, ?_⟩
+  simp only [ordLt, hx, hy]; exact hiff
+
+/-- `a = b` returns a logical, TRUE exactly when both have the same rank and the same value
+    (int 2 = float 2.0; a date equals the number that is its serial) -/
+theorem eq_result {a b : Value} (ha : Scalar a) (hb : Scalar b) (na : NonBlank a) (nb : NonBlank b) :
+    ∃ e : Bool, evalLogic .eq a b = .ok (.bool e) ∧ (e = true ↔ ordEq a b) := by
+  obtain ⟨x, hx⟩ := key_isSome ha na
+  obtain ⟨y, hy⟩ := key_isSome hb nb
+  refine ⟨_, evalLogic_eq ha hb, ?_⟩
+  simp only [ordEq, hx, hy]
+  exact cmpEq_key (key_eq_cvKey a ▸ hx) (key_eq_cvKey b ▸ hy)
+
+/-- `a < b` is TRUE iff `a` is before `b` in the described order -/
+theorem lt_iff_order {a b : Value} (ha : Scalar a) (hb : Scalar b) (na : NonBlank a) (nb : NonBlank b) :
+    evalLogic .lt a b = .ok (.bool true) ↔ ordLt a b := by
+  obtain ⟨l, hl, hiff⟩ := lt_result ha hb na nb
+  rw [hl, ← hiff]
+  constructor
+  · intro h; injection h with h; injection h
+  · intro h; rw [h]
+
+/-- `a > b` is TRUE iff `b` is before `a` in the described order -/
+theorem gt_iff_order {a b : Value} (ha : Scalar a) (hb : Scalar b) (na : NonBlank a) (nb : NonBlank b) :
+    evalLogic .gt a b = .ok (.bool true) ↔ ordLt b a := by
+  obtain ⟨l, hl, hiff⟩ := gt_result ha hb na nb
+  rw [hl, ← hiff]
+  constructor
+  · intro h; injection h with h; injection h
+  · intro h; rw [h]
+
+/-- `a = b` is TRUE iff `a` and `b` have the same rank and the same value -/
+theorem eq_iff_order {a b : Value} (ha : Scalar a) (hb : Scalar b) (na : NonBlank a) (nb : NonBlank b) :
+    evalLogic .eq a b = .ok (.bool true) ↔ ordEq a b := by
+  obtain ⟨l, hl, hiff⟩ := eq_result ha hb na nb
+  rw [hl, ← hiff]
+  constructor
+  · intro h; injection h with h; injection h
+  · intro h; rw [h]
+
+-- the hypotheses are satisfiable and the order is not trivial
+example : ordLt (.num (.flt (-9/4))) (.num (.int 2)) := by simp [ordLt, key, Key.lt, Key.rank, Num.toRat]; grind
+example : ordLt (.str "10".toList) (.str "2".toList) := by simp [ordLt, key, Key.lt, Key.rank]; decide
+example : ordLt (.num (.int 1000000)) (.str []) := by simp [ordLt, key, Key.lt, Key.rank]
+example : ordEq (.num (.int 2)) (.num (.flt 2)) := by simp [ordEq, key, Num.toRat]
+example : ¬ ordEq (.num (.int 1)) (.bool true) := by simp [ordEq, key]
+example : ¬ ordEq (.num (.int 2)) (.str "2".toList) := by simp [ordEq, key]
+
+/-! ### numbers numerically, dates by serial, text lexicographically -/
+
+/-- two numbers (int or float) compare by their numeric value -/
+theorem numbers_order_numerically (m n : Num) :
+    (evalLogic .lt (.num m) (.num n) = .ok (.bool true) ↔ Num.toRat m < Num.toRat n) ∧
+    (evalLogic .gt (.num m) (.num n) = .ok (.bool true) ↔ Num.toRat n < Num.toRat m) ∧
+    (evalLogic .eq (.num m) (.num n) = .ok (.bool true) ↔ Num.toRat m = Num.toRat n) := by
+  refine ⟨?_, ?_, ?_⟩
+  · rw [lt_iff_order (a := .num m) (b := .num n) trivial trivial trivial trivial]; simp [ordLt, key, Key.lt, Key.rank]
+  · rw [gt_iff_order (a := .num m) (b := .num n) trivial trivial trivial trivial]; simp [ordLt, key, Key.lt, Key.rank]
+  · rw [eq_iff_order (a := .num m) (b := .num n) trivial trivial trivial trivial]; simp [ordEq, key]
+
+/-- two dates compare by their serial numbers, a date and a number by serial and value -/
+theorem dates_order_by_serial (u v : Int) (n : Num) :
+    (evalLogic .lt (.date u) (.date v) = .ok (.bool true) ↔
+      Num.toRat (Dates.serialize u) < Num.toRat (Dates.serialize v)) ∧
+    (evalLogic .lt (.date u) (.num n) = .ok (.bool true) ↔ Num.toRat (Dates.serialize u) < Num.toRat n) ∧
+    (evalLogic .lt (.num n) (.date u) = .ok (.bool true) ↔ Num.toRat n < Num.toRat (Dates.serialize u)) ∧
+    (evalLogic .eq (.date u) (.num n) = .ok (.bool true) ↔ Num.toRat (Dates.serialize u) = Num.toRat n) := by
+  refine ⟨?_, ?_, ?_, ?_⟩
+  · rw [lt_iff_order (a := .date u) (b := .date v) trivial trivial trivial trivial]; simp [ordLt, key, Key.lt, Key.rank]
+  · rw [lt_iff_order (a := .date u) (b := .num n) trivial trivial trivial trivial]; simp [ordLt, key, Key.lt, Key.rank]
+  · rw [lt_iff_order (a := .num n) (b := .date u) trivial trivial trivial trivial]; simp [ordLt, key, Key.lt, Key.rank]
+  · rw [eq_iff_order (a := .date u) (b := .num n) trivial trivial trivial trivial]; simp [ordEq, key]
+
+/-- two texts compare lexicographically by code point (numeric-looking text is text) -/
+theorem text_orders_lexicographically (s t : List Char) :
+    (evalLogic .lt (.str s) (.str t) = .ok (.bool true) ↔ s < t) ∧
+    (evalLogic .gt (.str s) (.str t) = .ok (.bool true) ↔ t < s) ∧
+    (evalLogic .eq (.str s) (.str t) = .ok (.bool true) ↔ s = t) := by
+  refine ⟨?_, ?_, ?_⟩
+  · rw [lt_iff_order (a := .str s) (b := .str t) trivial trivial trivial trivial]
+    simp [ordLt, key, Key.lt, Key.rank, strLt_iff_lt]
+  · rw [gt_iff_order (a := .str s) (b := .str t) trivial trivial trivial trivial]
+    simp [ordLt, key, Key.lt, Key.rank, strLt_iff_lt]
+  · rw [eq_iff_order (a := .str s) (b := .str t) trivial trivial trivial trivial]; simp [ordEq, key]
+
+/-- FALSE < TRUE, and nothing else among logicals -/
+theorem logicals_order (p q : Bool) :
+    evalLogic .lt (.bool p) (.bool q) = .ok (.bool true) ↔ (p = false ∧ q = true) := by
+  rw [lt_iff_order (a := .bool p) (b := .bool q) trivial trivial trivial trivial]; simp [ordLt, key, Key.lt, Key.rank]
+
+/-! ### rank: number/date < text < logical -/
+
+/-- every number or date is less than every text -/
+theorem rank_number_text {a : Value} (ha : IsNumeric a) (s : List Char) :
+    evalLogic .lt a (.str s) = .ok (.bool true) := by
+  cases a <;> try exact ha.elim
+  case num n =>
+    rw [lt_iff_order (a := .num n) (b := .str s) trivial trivial trivial trivial]
+    simp [ordLt, key, Key.lt, Key.rank]
+  case date u =>
+    rw [lt_iff_order (a := .date u) (b := .str s) trivial trivial trivial trivial]
+    simp [ordLt, key, Key.lt, Key.rank]
+
+/-- every text is less than every logical -/
+theorem rank_text_logical (s : List Char) (p : Bool) :
+    evalLogic .lt (.str s) (.bool p) = .ok (.bool true) := by
+  rw [lt_iff_order (a := .str s) (b := .bool p) trivial trivial trivial trivial]
+  simp [ordLt, key, Key.lt, Key.rank]
+
+/-- every number or date is less than every logical -/
+theorem rank_number_logical {a : Value} (ha : IsNumeric a) (p : Bool) :
+    evalLogic .lt a (.bool p) = .ok (.bool true) := by
+  cases a <;> try exact ha.elim
+  case num n =>
+    rw [lt_iff_order (a := .num n) (b := .bool p) trivial trivial trivial trivial]
+    simp [ordLt, key, Key.lt, Key.rank]
+  case date u =>
+    rw [lt_iff_order (a := .date u) (b := .bool p) trivial trivial trivial trivial]
+    simp [ordLt, key, Key.lt, Key.rank]
+
+example : IsNumeric (.num (.flt (7/2))) ∧ IsNumeric (.date 0) := ⟨trivial, trivial⟩
+
+/-! ### blanks -/
+
+/-- a blank on the left compares as 0 against a number or a date, as empty text against
+    text and as FALSE against a logical — for each of the six operators, with equal results -/
+theorem blank_acts_as_left {b : Value} (hb : Scalar b) (op : CmpOp) :
+    evalLogic op .blank b = evalLogic op (zeroLike b) b := by
+  cases b <;> try exact hb.elim
+  case num n => exact evalLogic_congr op rfl rfl rfl rfl (cmp_none_left n)
+  case date us => exact evalLogic_congr op rfl rfl rfl rfl (cmp_none_left (Dates.serialize us))
+  case str s => exact evalLogic_congr op rfl rfl rfl rfl (cmp_none_left_str s)
+  case bool p => exact evalLogic_congr op rfl rfl rfl rfl (cmp_none_left_bool p)
+  case blank => rfl
+
+/-- the same with the blank on the right -/
+theorem blank_acts_as_right {a : Value} (ha : Scalar a) (op : CmpOp) :
+    evalLogic op a .blank = evalLogic op a (zeroLike a) := by
+  cases a <;> try exact ha.elim
+  case num n => exact evalLogic_congr op rfl rfl rfl rfl (cmp_none_right n)
+  case date us => exact evalLogic_congr op rfl rfl rfl rfl (cmp_none_right (Dates.serialize us))
+  case str s => exact evalLogic_congr op rfl rfl rfl rfl (cmp_none_right_str s)
+  case bool p => exact evalLogic_congr op rfl rfl rfl rfl (cmp_none_right_bool p)
+  case blank => rfl
+
+/-- two blanks: equal, neither less nor greater -/
+theorem blank_blank :
+    evalLogic .lt .blank .blank = .ok (.bool false) ∧ evalLogic .gt .blank .blank = .ok (.bool false) ∧
+    evalLogic .eq .blank .blank = .ok (.bool true) ∧ evalLogic .le .blank .blank = .ok (.bool true) ∧
+    evalLogic .ge .blank .blank = .ok (.bool true) ∧ evalLogic .ne .blank .blank = .ok (.bool false) := by
+  refine ⟨rfl, rfl, rfl, rfl, rfl, rfl⟩
+
+/-! ### trichotomy, converse, derived relations, transitivity -/
+
+/-- exactly one of three Booleans is true -/
+def ExactlyOne (l e g : Bool) : Prop :=
+  (l = true ∧ e = false ∧ g = false) ∨ (l = false ∧ e = true ∧ g = false) ∨
+  (l = false ∧ e = false ∧ g = true)
+
+private theorem bool_false_of_not {b : Bool} (h : ¬ b = true) : b = false := by
+  cases b <;> simp at h ⊢
+
+private theorem trichotomy_nonblank {a b : Value} (ha : Scalar a) (hb : Scalar b)
+    (na : NonBlank a) (nb : NonBlank b) :
+    ∃ l e g : Bool, evalLogic .lt a b = .ok (.bool l) ∧ evalLogic .eq a b = .ok (.bool e) ∧
+      evalLogic .gt a b = .ok (.bool g) ∧ ExactlyOne l e g := by
+  obtain ⟨x, hx⟩ := key_isSome ha na
+  obtain ⟨y, hy⟩ := key_isSome hb nb
+  obtain ⟨l, hl, hli⟩ := lt_result ha hb na nb
+  obtain ⟨e, he, hei⟩ := eq_result ha hb na nb
+  obtain ⟨g, hg, hgi⟩ := gt_result ha hb na nb
+  simp only [ordLt, ordEq, hx, hy] at hli hei hgi
+  refine ⟨l, e, g, hl, he, hg, ?_⟩
+  rcases Key.lt_trichotomy x y with h | h | h
+  · refine Or.inl ⟨hli.mpr h, bool_false_of_not ?_, bool_false_of_not ?_⟩
+    · intro h'; have := hei.mp h'; subst this; exact Key.lt_irrefl x h
+    · intro h'; exact Key.lt_asymm h (hgi.mp h')
+  · subst h
+    refine Or.inr (Or.inl ⟨bool_false_of_not ?_, hei.mpr rfl, bool_false_of_not ?_⟩)
+    · intro h'; exact Key.lt_irrefl x (hli.mp h')
+    · intro h'; exact Key.lt_irrefl x (hgi.mp h')
+  · refine Or.inr (Or.inr ⟨bool_false_of_not ?_, bool_false_of_not ?_, hgi.mpr h⟩)
+    · intro h'; exact Key.lt_asymm h (hli.mp h')
+    · intro h'; have := hei.mp h'; subst this; exact Key.lt_irrefl x h
+
+/-- for any two scalars (blanks included) `a<b`, `a=b`, `a>b` are logicals and exactly one
+    of them is TRUE -/
+theorem trichotomy {a b : Value} (ha : Scalar a) (hb : Scalar b) :
+    ∃ l e g : Bool, evalLogic .lt a b = .ok (.bool l) ∧ evalLogic .eq a b = .ok (.bool e) ∧
+      evalLogic .gt a b = .ok (.bool g) ∧ ExactlyOne l e g := by
+  by_cases na : NonBlank a
+  · by_cases nb : NonBlank b
+    · exact trichotomy_nonblank ha hb na nb
+    · have : b = .blank := by cases b <;> first | rfl | exact (nb trivial).elim
+      subst this
+      simp only [blank_acts_as_right ha]
+      exact trichotomy_nonblank ha (zeroLike_scalar ha) na (zeroLike_nonBlank ha na)
+  · have : a = .blank := by cases a <;> first | rfl | exact (na trivial).elim
+    subst this
+    by_cases nb : NonBlank b
+    · simp only [blank_acts_as_left hb]
+      exact trichotomy_nonblank (zeroLike_scalar hb) hb (zeroLike_nonBlank hb nb) nb
+    · have : b = .blank := by cases b <;> first | rfl | exact (nb trivial).elim
+      subst this
+      exact ⟨false, true, false, rfl, rfl, rfl, Or.inr (Or.inl ⟨rfl, rfl, rfl⟩)⟩
+
+/-- `a < b` and `b > a` give the same result, for all scalars (blanks included) -/
+theorem converse {a b : Value} (ha : Scalar a) (hb : Scalar b) :
+    evalLogic .lt a b = evalLogic .gt b a := by
+  obtain ⟨l, hl⟩ := cmpLt_isSome (toCV_plain ha) (toCV_plain hb)
+  rw [evalLogic_lt ha hb hl,
+    evalLogic_gt hb ha ((cmpLt_eq_cmpGt_swap (toCV_plain ha) (toCV_plain hb)) ▸ hl)]
+
+/-- `a < b` holds iff `b > a` holds -/
+theorem lt_iff_gt {a b : Value} (ha : Scalar a) (hb : Scalar b) :
+    evalLogic .lt a b = .ok (.bool true) ↔ evalLogic .gt b a = .ok (.bool true) := by
+  rw [converse ha hb]
+
+/-- `<=`, `>=` and `<>` are exactly the derived relations: `a<=b` is `a<b or a=b`,
+    `a>=b` is `a>b or a=b`, `a<>b` is `not a=b` (all scalars, blanks included) -/
+theorem derived {a b : Value} (ha : Scalar a) (hb : Scalar b) :
+    ∃ l e g : Bool, evalLogic .lt a b = .ok (.bool l) ∧ evalLogic .eq a b = .ok (.bool e) ∧
+      evalLogic .gt a b = .ok (.bool g) ∧
+      evalLogic .le a b = .ok (.bool (l || e)) ∧
+      evalLogic .ge a b = .ok (.bool (g || e)) ∧
+      evalLogic .ne a b = .ok (.bool (!e)) := by
+  obtain ⟨l, g, _, _, h1, h2, h3, h4, h5, h6⟩ := evalLogic_six ha hb
+  exact ⟨l, _, g, h1, h3, h2, h4, h5, h6⟩
+
+/-- the order is transitive on non-blank scalars: `a<b` and `b<c` imply `a<c` -/
+theorem transitive {a b c : Value} (ha : Scalar a) (hb : Scalar b) (hc : Scalar c)
+    (na : NonBlank a) (nb : NonBlank b) (nc : NonBlank c)
+    (h1 : evalLogic .lt a b = .ok (.bool true)) (h2 : evalLogic .lt b c = .ok (.bool true)) :
+    evalLogic .lt a c = .ok (.bool true) := by
+  rw [lt_iff_order ha hb na nb] at h1
+  rw [lt_iff_order hb hc nb nc] at h2
+  rw [lt_iff_order ha hc na nc]
+  exact ordLt_trans h1 h2
+
+-- the hypotheses of `transitive` are satisfiable across the three ranks: 2 < "a" < TRUE
+example : evalLogic .lt (.num (.int 2)) (.str "a".toList) = .ok (.bool true) ∧
+    evalLogic .lt (.str "a".toList) (.bool true) = .ok (.bool true) :=
+  ⟨rank_number_text (a := .num (.int 2)) trivial _, rank_text_logical _ _⟩
+
+/-- equality is transitive too (non-blank scalars) -/
+theorem eq_transitive {a b c : Value} (ha : Scalar a) (hb : Scalar b) (hc : Scalar c)
+    (na : NonBlank a) (nb : NonBlank b) (nc : NonBlank c)
+    (h1 : evalLogic .eq a b = .ok (.bool true)) (h2 : evalLogic .eq b c = .ok (.bool true)) :
+    evalLogic .eq a c = .ok (.bool true) := by
+  rw [eq_iff_order ha hb na nb] at h1
+  rw [eq_iff_order hb hc nb nc] at h2
+  rw [eq_iff_order ha hc na nc]
+  obtain ⟨x, hx⟩ := key_isSome ha na
+  obtain ⟨y, hy⟩ := key_isSome hb nb
+  obtain ⟨z, hz⟩ := key_isSome hc nc
+  simp only [ordEq, hx, hy, hz] at h1 h2 ⊢
+  exact h1.trans h2
+
+-- 2 = 2.0 = the date-time 1900-01-02T00:00 (serial 2)
+example : evalLogic .eq (.num (.int 2)) (.num (.flt 2)) = .ok (.bool true) := rfl
+example : evalLogic .eq (.num (.flt 2)) (.date 86400000000) = .ok (.bool true) := by
+  rw [evalLogic_eq (a := .num (.flt 2)) (b := .date 86400000000) trivial trivial]
+  have : cmpEq (toCV (.num (.flt 2))) (toCV (.date 86400000000)) = true := by decide +kernel
+  rw [this]
+
+/-! ### concrete instances, including the cases that were wrong before the repair -/
+
+-- `1 = TRUE` is FALSE, `TRUE = 1` is FALSE
+example : evalLogic .eq (.num (.int 1)) (.bool true) = .ok (.bool false) := by rfl
+example : evalLogic .eq (.bool true) (.num (.int 1)) = .ok (.bool false) := by rfl
+-- `TRUE < 3` is FALSE, `TRUE > 3` is TRUE
+example : evalLogic .lt (.bool true) (.num (.int 3)) = .ok (.bool false) := by rfl
+example : evalLogic .gt (.bool true) (.num (.int 3)) = .ok (.bool true) := by rfl
+-- `2 < "a"`, `"a" < TRUE` and `2 < TRUE`
+example : evalLogic .lt (.num (.int 2)) (.str "a".toList) = .ok (.bool true) := by rfl
+example : evalLogic .lt (.str "a".toList) (.bool true) = .ok (.bool true) := by rfl
+example : evalLogic .lt (.num (.int 2)) (.bool true) = .ok (.bool true) := by rfl
+-- a date is less than a logical: `DATE(..) < TRUE` (any date)
+example (us : Int) : evalLogic .lt (.date us) (.bool true) = .ok (.bool true) :=
+  rank_number_logical (a := .date us) trivial true
+-- numeric-looking text is text: `10 < "2"`, `"10" < "2"`, `"" < "a"`
+example : evalLogic .lt (.num (.int 10)) (.str "2".toList) = .ok (.bool true) := by rfl
+example : evalLogic .lt (.str "10".toList) (.str "2".toList) = .ok (.bool true) := by rfl
+example : evalLogic .lt (.str []) (.str "a".toList) = .ok (.bool true) := by rfl
+-- negative and fractional numbers: `-2.25 < -1`, `2 = 2.0`
+example : evalLogic .lt (.num (.flt (-9/4))) (.num (.int (-1))) = .ok (.bool true) := by
+  rw [(numbers_order_numerically _ _).1]; simp only [Num.toRat]; grind
+example : evalLogic .eq (.num (.int 2)) (.num (.flt 2)) = .ok (.bool true) := by rfl
+-- blanks: blank = 0, blank = "", blank = FALSE, blank < 1, blank > -1, blank < TRUE
+example : evalLogic .eq .blank (.num (.int 0)) = .ok (.bool true) := by rfl
+example : evalLogic .eq .blank (.str []) = .ok (.bool true) := by rfl
+example : evalLogic .eq .blank (.bool false) = .ok (.bool true) := by rfl
+example : evalLogic .lt .blank (.num (.int 1)) = .ok (.bool true) := by rfl
+example : evalLogic .gt .blank (.num (.int (-1))) = .ok (.bool true) := by rfl
+example : evalLogic .lt .blank (.bool true) = .ok (.bool true) := by rfl
+-- the date 1900-01-01 (serial 0 in the code) equals a blank
+example : evalLogic .eq (.date 0) .blank = .ok (.bool true) := by rfl
 
 end HotXL.Props.C07
